@@ -60,6 +60,18 @@ def cases(tier, seed):
             out.append({"kind": "defs", "cls": "defs:" + cls, "entry": cls, "idx": idx, "seed": seed, "struct": True,
                         "maxd": 6 if tier == "quick" else 14})
             idx += 1
+    # size ladder beyond plausible thresholds for "cheaper method for large input" switches (above 16 / 32, n a multiple of 16)
+    lad = [(17, 17), (20, 9), (9, 20), (33, 33), (16, 16), (24, 24), (1, 40), (40, 1)] if tier == "quick" else \
+          [(a, b) for a in (1, 9, 16, 17, 24, 32, 33, 40, 64, 65) for b in (1, 9, 16, 17, 33, 40)]
+    for k, dims in enumerate(lad):
+        for cls in ("gauss", "nonpos", "sparse"):
+            out.append({"kind": "defs", "cls": "defs:" + cls, "entry": cls, "idx": idx, "seed": seed, "maxd": 8, "dims": list(dims)})
+            idx += 1
+        for cls in gen.STRUCT_CLASSES:
+            if tier == "quick" and (k + sum(map(ord, cls))) % 3:
+                continue
+            out.append({"kind": "defs", "cls": "defs:" + cls, "entry": cls, "idx": idx, "seed": seed, "struct": True, "maxd": 8, "dims": list(dims)})
+            idx += 1
     for rep in range(24 if tier == "quick" else 600):
         out.append({"kind": "ineq", "cls": "ineq", "idx": rep, "seed": seed, "maxd": 6 if tier == "quick" else 12})
     out.append({"kind": "ords", "cls": "ords", "seed": seed})
@@ -93,6 +105,9 @@ def _defs(spec, ctx, R):
         m = 1
     if spec["idx"] % 11 == 0:
         n = 1
+    if "dims" in spec:
+        m, n = spec["dims"]
+        ctx.hit("size:ladder")
     if spec.get("struct"):
         if gen.is_square_class(cls):
             n = m
